@@ -288,6 +288,19 @@ func vfIdnaRandPayload(rnd *rand.Rand) string {
 	return string(b)
 }
 
+// Unicode labels that are NOT in NFC (base letter + combining mark at the start, in the middle
+// and at the end, followed / not followed by ASCII letters and digits), and controls: the
+// precomposed spellings and a base + mark pair that has no precomposed form (already NFC).
+// Their A-labels are built with the package's own encode (input construction only; logged).
+var vfIdnaNonNFC = []string{"bu\u0308cher", "a\u0308b", "e\u0301cole", "u\u0308ber", "mu\u0308nchen", "o\u0308l9", "a\u0308", "cafe\u0301",
+	"cafe\u03011", "c\u0327a", "garc\u0327on", "c\u0327", "a\u0308e\u0301", "xa\u0308", "9u\u0308x", "a-e\u0301-b", "e\u0301e", "ba\u030a",
+	"b\u00fccher", "\u00e9cole", "\u00e4b", "gar\u00e7on", "x\u0308b", "q\u0301"}
+
+func vfIdnaNonNFCLabel(rnd *rand.Rand) string {
+	a, _ := encode(acePrefix, vfIdnaNonNFC[rnd.Intn(len(vfIdnaNonNFC))])
+	return a
+}
+
 var vfIdnaSurrogate = []string{"xn--ib9b", "xn--ab-ge4l", "xn--q49b", "xn--zy0c", "xn--r49b"}
 
 // vfIdnaBadLabel draws an "xn--" label of one of the classes C50 wants rejected.
@@ -317,8 +330,10 @@ func vfIdnaLabel(rnd *rand.Rand) (string, string) {
 		return pick(vfIdnaUpper), "upper"
 	case k < 9:
 		return pick(vfIdnaAce), "ace"
-	case k < 11:
+	case k < 10:
 		return "xn--" + vfIdnaRandPayload(rnd), "ace-random"
+	case k < 11:
+		return vfIdnaNonNFCLabel(rnd), "ace-nonnfc"
 	case k < 15:
 		return pick(vfIdnaUni), "uni"
 	default:
@@ -379,12 +394,26 @@ func vfIdnaRecord(env *vfEnv) {
 	// every rejected trace costs TLC an error trace; the classes the pinned tree is known to
 	// accept (F7) get a fixed budget of domains spread evenly over the run
 	nbad := env.Int("bad", 16)
+	// domains made of one A-label whose payload decodes to a non-NFC string (or a control) among
+	// plain ASCII labels, so that nothing else in the domain makes a profile reject it
+	nnfc := env.Int("nonnfc", 8)
 	profs := vfIdnaProfiles()
 	rnd := env.Rand(50)
 	t := 0
 	for d := 0; d < nd && !env.Hung; d++ {
 		bad := nbad > 0 && nd >= nbad && d%(nd/nbad) == 0 && d/(nd/nbad) < nbad
 		x, tags := vfIdnaDomain(rnd, bad)
+		if !bad && nnfc > 0 && nd >= 2*nnfc && (d+nd/(2*nnfc))%(nd/nnfc) == 0 {
+			x, tags = vfIdnaNonNFCLabel(rnd), "ace-nonnfc"
+			switch rnd.Intn(4) {
+			case 0:
+				x, tags = "www."+x, "ascii,"+tags
+			case 1:
+				x, tags = x+".com", tags+",ascii"
+			case 2:
+				x, tags = "www."+x+".example", "ascii,"+tags+",ascii"
+			}
+		}
 		for _, pr := range profs {
 			t++
 			if !env.Only(t) {
